@@ -320,6 +320,30 @@ pub mod ffi {
     impl CycOuter {
         pub fn get_inner(self) -> CycInner %(U)s
     }
+    // a type of every kind whose own methods mention it outside the receiver position (1-cycles): static factories, Result / Option of Self
+    #[diplomat::out]
+    pub struct SelfOut { pub code: u8, pub count: u32 }
+    impl SelfOut {
+        pub fn latest() -> SelfOut %(U)s
+        pub fn try_latest() -> Result<SelfOut, ()> %(U)s
+        pub fn maybe() -> Option<SelfOut> %(U)s
+    }
+    pub struct SelfSt { pub a: u8 }
+    impl SelfSt {
+        pub fn make() -> SelfSt %(U)s
+        pub fn merge(self, o: SelfSt) -> Result<SelfSt, SelfSt> %(U)s
+    }
+    pub enum SelfEn { P, Q }
+    impl SelfEn {
+        pub fn first() -> SelfEn { SelfEn::P }
+        pub fn other(self, o: SelfEn) -> Option<SelfEn> { let _ = o; None }
+    }
+    #[diplomat::opaque]
+    pub struct SelfOp;
+    impl SelfOp {
+        pub fn make() -> Box<SelfOp> { Box::new(SelfOp) }
+        pub fn again(&self, o: &SelfOp) -> Result<Box<SelfOp>, Box<SelfOp>> %(U)s
+    }
     // borrowing struct <-> opaque
     pub struct CycRef<'a> { pub a: &'a CycA }
     impl<'a> CycRef<'a> {
